@@ -9,7 +9,7 @@ T_KANI = "; Kani/CBMC harnesses on the real crate for the parts outside Verus' l
 
 TEXT = {
  "C01": ("proof", "Segtree::{new_raw,new,from_iter,rebuild,rebuild_empty,set,ask,modify,push_at,merge_at}(+internals) are verified for an ARBITRARY lawful item algebra (no commutativity assumed): ask = in-order fold of the abstract array view, modify = pointwise action on [l..=r], frame over the implicit heap. Built-in items Min/Max/Sum/MinAdd/MaxAdd/SumAdd and Combinator are proved to satisfy the item contract.",
-         "Built-in items are proved over an idealised (mathematical) integer: machine overflow is not modelled for them. from_slice (iter().cloned()) and debug() are not under contract. 64-bit usize, n < usize::MAX/8. Derived Clone/Default of item structs act field-wise (assume_specification)."),
+         "Built-in items are proved over an idealised (mathematical) integer: machine overflow is not modelled for them. from_slice (iter().cloned()) is outside Verus' subset: bounded Kani harness (n <= 4, non-commutative merge) + bounded enumeration; debug() is not covered. 64-bit usize, n < usize::MAX/8. Derived Clone/Default of item structs act field-wise (assume_specification)."),
  "C02": ("proof", "lower_bound / lower_bound_rev and their internals are verified against the exact-first/last-index postcondition for every value-determined monotone predicate and every lawful item with Default = identity; the aggregate handed to the predicate is proved to be the in-order fold of exactly [l..=k] (resp. [k..=r]).",
          "Preconditions: l < n (resp. r < n), predicate total and value-determined, monotone along growing ranges, Default is the merge identity. Shares the segtree unit (push_at, merge_at) with C01."),
  "C03": ("proof", "TreapNode::{new,update,push,merge,split_by,split_at,collect_into} and Treap::{new,from_item,is_empty,merge,split_by,split_at,insert_at,remove_at,first,last,root,root_mut,collect,size} are verified for an arbitrary lawful item algebra (pending modifiers composed in order, no commutativity) against the sequence view `elems`; priorities occur only in merge's branch condition, so the result holds for every priority assignment.",
@@ -29,7 +29,7 @@ TEXT = {
  "C11": ("proof", "gcd, lcm, egcd, crt verified for i64, i32, i128 (gcd/lcm also u64, u32, u128): gcd is the greatest common divisor (is_gcd), lcm the least common multiple (is_lcm), egcd returns a solution iff gcd | c (Bezout), crt the unique solution in [0, lcm) iff compatible; all overflow obligations discharged under the magnitude bound.",
          "Bounds in requires: |a|,|b|,|c| <= 2^20 (i64/u64), 2^10 (i32/u32), 2^42 (128-bit); operands != T::MIN; lcm(0,0) excluded. assume_specification for iN::abs."),
  "C12": ("proof", "Bitset::{new,from_u64,set,remove,flip,test,clear,iter_bits,default}, BitsIter::{new,next} and &=, |=, ^= are verified for symbolic N against the bit view (forall i < 64N); next returns the least set index >= position.",
-         "&, |, ^ (enumerate), ! (mut self), count (map/sum), derived ==, Display/Debug are outside Verus' subset: covered by Kani harnesses for N = 2 words, all words symbolic (bounded in N only). assume_specification for slice::fill."),
+         "&, |, ^ (enumerate), ! (mut self), count (map/sum), derived ==, Display/Debug are outside Verus' subset: covered by Kani harnesses for N = 1, 2, 3 words, all words symbolic (bounded in N only). assume_specification for slice::fill."),
  "C13": ("proof", "Sieve::{new,min_prime,is_prime,primes,factorize} and PrimeIter::next verified for every limit n < 2^31-16: mnp[m] is the least prime factor, isp[m] <=> prime(m), primes = all primes <= n increasing; next yields (lpf, exact exponent) with strictly increasing primes; lemma_factors gives the whole factorisation.",
          "64-bit usize assumed. Preconditions 0 <= n <= N on the accessors."),
  "C14": ("proof", "Integer clauses: for each of the 10 integer types and the range forms .., a..b, a..=b, ..b, ..=b a loop-free Kani harness over fully symbolic bounds and raw output proves membership, and an explicit witness proves reachability of every value (complete, bit-precise). Determinism: next_raw/from_seed verified by Verus (state' = state*A + C mod 2^64). Shuffle: Rand::shuffle is verified in Verus to return a rearrangement for EVERY slice length, modularly against the `draw lies in the range` contract of Rand::next / Randomable (which is verified for usize in the same unit and by Kani for all types).",
